@@ -6,6 +6,7 @@
 #include <array>
 #include <chrono>
 #include <cstdint>
+#include <mutex>
 #include <optional>
 #include <span>
 #include <string>
@@ -37,6 +38,7 @@ public:
 
 private:
     std::chrono::seconds rotation_interval_;
+    mutable std::mutex mutex_;
     std::unordered_map<std::string, SessionKeyContext> contexts_;
 
     static std::array<std::uint8_t, 32> derive_key(const crypto::Key& shared_secret,
